@@ -7,6 +7,10 @@ CLAIMS = {
   text="Deductive proof of the refusal and mode-selection half of the wire codec: Encoder.validQuoted equals the quoted-string admissibility predicate for every byte string (length threshold 4096, NUL/CR/LF, 8-bit bytes only with UTF-8 quoting), Encoder.String quotes only admissible strings, stringLiteral/Literal choose '{n}' vs '{n+}' exactly per side and negotiated mode and announce exactly len(s) bytes, isValidFlag equals the flag grammar [\\] 1*ATOM-CHAR, and a malformed flag, malformed mailbox attribute or empty number set is refused with an error before anything is written.",
   note="unicode.IsControl modelled by its Latin-1 definition (assumed). Not covered (not claimed): decode(encode(v)) == v round-trips (Quoted/Decoder.Quoted inverse, literals, numbers, mailbox UTF-7, nested lists), 'exactly the written bytes are consumed'; the decoder side is under contract only for its error discipline (C02/C06).",
   design="§6 C01"),
+ "C02": dict(
+  text="Deductive proof of the error-propagation and accumulation half of command parsing: every imapwire.Decoder method keeps a recorded error (sticky: never cleared or replaced — rule over all methods, loops included), every Expect* method that reports failure has recorded an error, Decoder.Err returns it, out-parameters are the only cells written (frame obligations); the server's search-key parser reports a failing NOT/OR operand as an error (never success), and after each key every size/date bound is at least as tight as before and the flag lists only grow — with SearchCriteria.And proved to be the exact intersection (C19) this makes multi-key SEARCH arguments arrive un-weakened.",
+  note="Callback-taking decoder methods (List, ExpectList, ExpectNList, Func) and the recursive readSearchKey carry assumed (trusted) contracts, listed in evidence. Not covered (not claimed): the client's option-name tables (map-range loops: returnSearchOptions, statusItems, ...) and their agreement with the server's tables, FETCH item/section syntax, byte-level framing between arguments, that back-end calls receive exactly the decoded variables.",
+  design="§6 C02"),
  "C04": dict(
   text="Deductive proof, with a ghost counter of tagged response lines defined by the four functions that put a tag at the start of a line: Conn.readCommand, from any connection state and for every decoder outcome, writes exactly one tagged response when it returns without a connection-level error (at most two if a handler's own completion had been written and only its flush failed); handlers that send their own completion (STARTTLS, AUTHENTICATE, LOGIN, SELECT/EXAMINE, APPEND, COPY) write exactly one on success and none on failure (unless that write itself failed); every other method of Conn writes none; '+' is written by acceptLiteral only for synchronising literals and by IDLE only when authenticated; checkBufferedLiteral refuses sizes above 4096; the decoder's error is sticky and Expect* failures are errors, so a handler never continues parsing after a failed read.",
   note="KNOWN FINDING (known_findings.txt): a refused literal is neither drained nor made a decoder error (Decoder.Literal/post0). Not covered: well-formedness of each response line (responseEncoder begin/end pairing, partial lines left in the buffer after an encoder error), interleaving of IDLE goroutine output (schedules), the serve loop.",
